@@ -61,5 +61,10 @@ LastJunk == LET J == {i \in 1..Len(segs) : segs[i] \notin Clean} IN IF J = {} TH
 Resync == (phase = "read" /\ fedn = Len(wire)) =>
              LET req == SelectSeq([i \in 1..Len(segs) |-> i], LAMBDA i : i > LastJunk + 1)
              IN IsSubseq([j \in 1..Len(req) |-> segs[req[j]]], outs)
+\* Witnesses (vacuity guards): invariants TLC must find VIOLATED
+W_TwoDelivered == ~(phase = "read" /\ Len(outs) >= 2)
+W_TailThenClean == ~(phase = "read" /\ Len(segs) >= 2 /\ segs[1] \in Tails /\ (\A i \in 2..Len(segs) : segs[i] \in Clean) /\ Len(outs) >= 1)
+W_ResyncBinds == ~(phase = "read" /\ fedn = Len(wire) /\ LastJunk > 0 /\ LastJunk + 1 < Len(segs))
+W_RetainedAtGuard == ~((IF Pinned THEN Len(st.buf) + Len(st.raw) ELSE Retained(st)) >= GuardMax)
 BufBounded == (IF Pinned THEN Len(st.buf) + Len(st.raw) ELSE Retained(st)) <= GuardMax + lastChunk
 =============================================================================
